@@ -62,6 +62,8 @@ pub enum Op {
     OutUnknownToken { user: u8 },
     /// outbound transfer to a chain name that differs from a trusted one only in letter case / a trailing space
     OutLookalikeChain { user: u8, tok: u8, chain: u8, space: bool },
+    /// outbound transfer of a canonical asset whose gas is paid in that same asset
+    OutGasInSameToken { user: u8, slot: u8, chain: u8, amount: u8, gas: u8 },
     /// approved inbound transfer whose announced amount is above 2^127-1 (hand-encoded): must be refused, not truncated
     InOutOfRangeAmount { tok: u8, to: u8, origin: u8, low: u8, which: u8 },
     AdvanceDays(u8),
@@ -100,6 +102,7 @@ fn op() -> impl Strategy<Value = Op> {
         1 => (0u8..2, 0u8..NU as u8, 1u8..100).prop_map(|(slot, to, amount)| Op::MinterMint { slot, to, amount }),
         1 => (0u8..NU as u8).prop_map(|user| Op::OutUnknownToken { user }),
         1 => (1u8..60).prop_map(Op::AdvanceDays),
+        1 => (0u8..NU as u8, 0u8..2, 0u8..3, 0u8..60, 0u8..10).prop_map(|(user, slot, chain, amount, gas)| Op::OutGasInSameToken { user, slot, chain, amount, gas }),
         1 => (0u8..5, 0u8..NU as u8, 0u8..3, 1u8..50, 0u8..4).prop_map(|(tok, to, origin, low, which)| Op::InOutOfRangeAmount { tok, to, origin, low, which }),
         1 => (0u8..NU as u8, 0u8..5, 0u8..3, any::<bool>()).prop_map(|(user, tok, chain, space)| Op::OutLookalikeChain { user, tok, chain, space }),
     ]
@@ -268,6 +271,43 @@ impl Property for C05 {
                             ensure_p!(ok, "step {}: designated minter could not mint", step);
                             bal[s][to] += *amount as i128;
                             supply[s] += *amount as i128;
+                        }
+                    }
+                }
+                Op::OutGasInSameToken { user, slot, chain, amount, gas } => {
+                    let u = *user as usize % NU;
+                    let ti = 2 + *slot as usize % 2;
+                    let c = *chain as usize % 3;
+                    if let Some(t) = &toks[ti] {
+                        let a = *amount as i128;
+                        let g = *gas as i128;
+                        let b = bal[ti][u];
+                        let expect_ok = a > 0 && g > 0 && trusted[c] && a + g <= b;
+                        let snap0 = snapshot(env);
+                        let r = w.its.client.try_interchain_transfer(
+                            &w.users[u],
+                            &BytesN::from_array(env, &t.id),
+                            &sstr(env, CHAINS[c]),
+                            &Bytes::from_slice(env, &[7, 7]),
+                            &a,
+                            &None,
+                            &Token { address: t.addr.clone(), amount: g },
+                        );
+                        let ok = matches!(r, Ok(Ok(())));
+                        if expect_ok {
+                            cx.count("must_succeed");
+                            cx.label("gas_paid_in_the_transferred_token");
+                            ensure_p!(ok, "step {}: transfer of {} with gas {} in the same token (balance {}) refused: {:?}", step, a, g, b, r);
+                            bal[ti][u] -= a + g;
+                            bal[ti][its_i] += a;
+                            bal[ti][gs_i] += g;
+                            asset_bal[ti - 2] = bal[ti];
+                            out_ok_canonical = true;
+                            successes += 1;
+                        } else {
+                            cx.count("must_fail");
+                            ensure_p!(!ok, "step {}: transfer of {} with gas {} in the same token accepted although balance is {} / trusted {}", step, a, g, b, trusted[c]);
+                            ensure_p!(snapshot(env) == snap0, "step {}: refused transfer changed the ledger", step);
                         }
                     }
                 }
